@@ -9,7 +9,7 @@ EXTENDS ConfigDecode, Json, IOUtils, SequencesExt
 ReflPointsIO == ndJsonDeserialize(IOEnv.VERIF_POINTS)
 
 VariantOut(V) == [name |-> V.name,
-                  leaves |-> [j \in 1..Len(V.leaves) |-> [p |-> V.leaves[j].p, k |-> V.leaves[j].k]],
+                  leaves |-> [j \in 1..Len(V.leaves) |-> [p |-> V.leaves[j].p, k |-> V.leaves[j].k, f |-> V.leaves[j].f]],
                   full |-> BaseEntries(V, "full"), min |-> BaseEntries(V, "min"),
                   spec_points |-> SetToSeq(SpecPoints(V))]
 ExportedVariants == ndJsonSerialize(IOEnv.VERIF_OUT_VARIANTS, [i \in 1..Len(Variants) |-> VariantOut(Variants[i])])
